@@ -158,6 +158,14 @@ func (s *Sim) resolveCas(o *Op, pre *Obs, dk DocKey) {
 			} else {
 				o.NewCas = (base-uint64(1+s.R.Intn(1000))*0x10000)&^0xFFFF | low
 			}
+		case "between":
+			// just above this document's own CAS: typically above its collection's high-water mark only if it is the
+			// collection's newest document, and below what other collections have been handed since
+			if cur > 1<<20 {
+				o.NewCas = (cur+uint64(1+s.R.Intn(3))*0x10000)&^0xFFFF | low
+			} else {
+				o.NewCas = (base+uint64(1+s.R.Intn(1000))*0x10000)&^0xFFFF | low
+			}
 		case "far":
 			o.NewCas = (base+3600e9)&^0xFFFF | low
 		default: // "above"
